@@ -309,3 +309,356 @@ def query_battery(d, names, parents=((),)):
             for op in ("exists", "is_stream", "is_storage", "entry", "open_stream", "read_storage"):
                 ops.append({"op": op, "p": p, "heavy": False})
     return ops
+
+
+# ---------------------------------------------------------------------------
+# Shaped histories crossing real geometry thresholds
+
+def threshold_histories(tier, seed):
+    """Directory-sector, FAT-sector, MiniFAT-sector (and, thorough, DIFAT)
+    growth at real geometry, each followed by removals, reopen and reuse."""
+    rng = random.Random(seed)
+    out = []
+    pool = ["k1", "k2", "k3", "k4", "k5", "k6", "foo", "bar", "baz", "a", "B", "c", "Z", "aa", "AB", "zz", "quux",
+            "stream1", "n31", "n30", "sp", "dot", "dots"]
+    for ver in (3, 4):
+        # (a) directory growth: V3 4 entries/sector, V4 32 entries/sector
+        f = Fill()
+        ops = []
+        nent = 10 if ver == 3 else 36
+        made = []
+        # two levels so that 36 distinct names exist
+        ops.append({"op": "create_storage", "p": sp(["foo"]), "heavy": True})
+        ops.append({"op": "create_storage", "p": sp(["bar"]), "heavy": True})
+        parents = [[], ["foo"], ["bar"]]
+        i = 0
+        while len(made) < nent:
+            par = parents[i % 3]
+            n = pool[(i // 3) % len(pool)]
+            i += 1
+            if par == [] and n in ("foo", "bar"):
+                continue
+            path = par + [n]
+            if rng.random() < 0.5:
+                ops.append({"op": "create_stream", "p": sp(path)})
+                ops.append({"op": "write", "p": sp(path), "off": 0, "runs": f.runs(rng, rng.choice([10, 64, 100, 4096]))})
+            else:
+                ops.append({"op": "create_storage", "p": sp(path)})
+            made.append(path)
+            total = len(made) + 3
+            per = 4 if ver == 3 else 32
+            ops[-1]["heavy"] = (ver == 3) or (total % per in (0, 1, 2)) or len(made) == nent
+        ops.append({"op": "reopen", "mode": "strict", "heavy": True})
+        for path in made[::3]:
+            ops.append({"op": "remove_storage_all", "p": sp(path), "heavy": True})
+        ops.append({"op": "create_stream", "p": sp(["zz"]), "heavy": True})
+        ops.append({"op": "reopen", "mode": "permissive", "heavy": True})
+        out.append({"id": f"dirgrow_v{ver}", "ver": ver, "heavy": "marked", "ops": ops})
+        # (b) MiniFAT growth: V3 128 entries per MiniFAT sector, V4 1024
+        f = Fill()
+        ops = []
+        nstreams = 4 if ver == 3 else (18 if tier == "thorough" else 3)
+        for j in range(nstreams):
+            p = sp([pool[j]])
+            ops.append({"op": "create_stream", "p": p})
+            ops.append({"op": "write", "p": p, "off": 0, "runs": f.runs(rng, 4000), "heavy": True})
+        ops.append({"op": "remove_stream", "p": sp([pool[1]]), "heavy": True})
+        ops.append({"op": "reopen", "mode": "strict", "heavy": True})
+        ops.append({"op": "create_stream", "p": sp(["zz"])})
+        ops.append({"op": "write", "p": sp(["zz"]), "off": 0, "runs": f.runs(rng, 3000), "heavy": True})
+        ops.append({"op": "set_len", "p": sp([pool[0]]), "n": 5000, "heavy": True})
+        ops.append({"op": "set_len", "p": sp([pool[0]]), "n": 100, "heavy": True})
+        out.append({"id": f"minifatgrow_v{ver}", "ver": ver, "heavy": "marked", "ops": ops})
+        # (c) FAT growth: V3 128 entries per FAT sector (64 KiB), V4 1024 (4 MiB)
+        if ver == 3 or tier == "thorough":
+            f = Fill()
+            big = 70000 if ver == 3 else 4300000
+            ops = [{"op": "create_stream", "p": sp(["a"])},
+                   {"op": "write", "p": sp(["a"]), "off": 0, "runs": f.runs(rng, big), "heavy": True},
+                   {"op": "create_stream", "p": sp(["B"])},
+                   {"op": "write", "p": sp(["B"]), "off": 0, "runs": f.runs(rng, 9000), "heavy": True},
+                   {"op": "set_len", "p": sp(["a"]), "n": big // 2, "heavy": True},
+                   {"op": "reopen", "mode": "strict", "heavy": True},
+                   {"op": "write", "p": sp(["B"]), "off": 9000, "runs": f.runs(rng, big // 3), "heavy": True},
+                   {"op": "remove_stream", "p": sp(["a"]), "heavy": True},
+                   {"op": "create_stream", "p": sp(["c"])},
+                   {"op": "write", "p": sp(["c"]), "off": 0, "runs": f.runs(rng, 5000), "heavy": True}]
+            out.append({"id": f"fatgrow_v{ver}", "ver": ver, "heavy": "marked", "ops": ops})
+    if tier == "thorough":
+        # (d) DIFAT growth, V3 only (109 FAT sectors ~ 7 MiB); V4 needs 457 MiB
+        f = Fill()
+        ops = [{"op": "create_stream", "p": sp(["a"])},
+               {"op": "write", "p": sp(["a"]), "off": 0, "runs": f.runs(rng, 7300000), "heavy": True},
+               {"op": "create_stream", "p": sp(["B"])},
+               {"op": "write", "p": sp(["B"]), "off": 0, "runs": f.runs(rng, 200000), "heavy": True},
+               {"op": "reopen", "mode": "strict", "heavy": True},
+               {"op": "remove_stream", "p": sp(["a"]), "heavy": True},
+               {"op": "create_stream", "p": sp(["c"])},
+               {"op": "write", "p": sp(["c"]), "off": 0, "runs": f.runs(rng, 100000), "heavy": True}]
+        out.append({"id": "difatgrow_v3", "ver": 3, "heavy": "marked", "ops": ops})
+    return out
+
+
+def with_forks(rng, hists, p=0.5):
+    """For each history also produce a copy that reopens the bytes (no flush)
+    at a random operation boundary and continues on the reopened file."""
+    out = []
+    for h in hists:
+        out.append(h)
+        if rng.random() < p and len(h["ops"]) > 2:
+            k = rng.randrange(1, len(h["ops"]))
+            ops = h["ops"][:k] + [{"op": "reopen", "mode": rng.choice(["strict", "permissive"])}] + h["ops"][k:]
+            out.append(dict(h, id=h["id"] + f"_fork{k}", ops=ops))
+    return out
+
+
+# ---------------------------------------------------------------------------
+# C08 templates: shrink/grow grids
+
+def c08_templates(tier):
+    out = []
+    for ver in (3, 4):
+        slen = 512 if ver == 3 else 4096
+        L = sorted(set([0, 1, 63, 64, 65, 4095, 4096, 4097, slen - 1, slen, slen + 1, 2 * slen + 1]))
+        if tier == "quick":
+            Lq = [1, 64, 65, 4095, 4096, slen + 1, 2 * slen + 1]
+        else:
+            Lq = L
+        # T1: write L0, shrink to L1, grow to L2, read back (same path, fresh handle, reopen)
+        n = 0
+        for L0 in Lq:
+            for L1 in L:
+                if L1 >= L0:
+                    continue
+                for L2 in Lq:
+                    if L2 <= L1:
+                        continue
+                    if tier == "quick" and (n % 3) != 0:
+                        n += 1
+                        continue
+                    n += 1
+                    f = Fill()
+                    ops = [{"op": "create_stream", "p": sp(["a"])},
+                           {"op": "write", "p": sp(["a"]), "off": 0, "runs": [[f.next(), L0]]},
+                           {"op": "set_len", "p": sp(["a"]), "n": L1},
+                           {"op": "set_len", "p": sp(["a"]), "n": L2, "heavy": True},
+                           {"op": "read", "p": sp(["a"])}]
+                    out.append({"id": f"T1_v{ver}_{L0}_{L1}_{L2}", "ver": ver, "heavy": "marked", "ops": ops})
+        # T2: write A (L0), remove/shrink A, create B, grow B to L2 (reuse of freed space),
+        #     with and without a third stream pinning the mini stream's tail
+        for L0 in Lq:
+            if L0 == 0:
+                continue
+            for L2 in Lq:
+                for pin in (False, True):
+                    for how in ("remove", "shrink"):
+                        f = Fill()
+                        ops = [{"op": "create_stream", "p": sp(["a"])},
+                               {"op": "write", "p": sp(["a"]), "off": 0, "runs": [[f.next(), L0]]}]
+                        if pin:
+                            ops += [{"op": "create_stream", "p": sp(["c"])},
+                                    {"op": "write", "p": sp(["c"]), "off": 0, "runs": [[f.next(), 70]]}]
+                        if how == "remove":
+                            ops.append({"op": "remove_stream", "p": sp(["a"])})
+                        else:
+                            ops.append({"op": "set_len", "p": sp(["a"]), "n": 0})
+                        ops += [{"op": "create_stream", "p": sp(["B"])},
+                                {"op": "set_len", "p": sp(["B"]), "n": L2, "heavy": True},
+                                {"op": "read", "p": sp(["B"])}]
+                        out.append({"id": f"T2_v{ver}_{L0}_{L2}_{int(pin)}_{how}", "ver": ver, "heavy": "marked", "ops": ops})
+        # T3: across a migration in either direction, then grow again
+        for (L0, L1, L2) in [(100, 5000, 6000), (5000, 100, 200), (5000, 100, 5000), (4095, 4096, 4200),
+                             (4096, 4095, 4096), (9000, 60, 9000), (60, 9000, 30), (4097, 1, 4097),
+                             (2 * slen + 1, slen - 1, 2 * slen + 1), (slen + 1, 63, slen + 1)]:
+            f = Fill()
+            ops = [{"op": "create_stream", "p": sp(["a"])},
+                   {"op": "write", "p": sp(["a"]), "off": 0, "runs": [[f.next(), L0]]},
+                   {"op": "set_len", "p": sp(["a"]), "n": L1, "heavy": True},
+                   {"op": "set_len", "p": sp(["a"]), "n": L2, "heavy": True},
+                   {"op": "set_len", "p": sp(["a"]), "n": max(L0, L1, L2) + 70, "heavy": True}]
+            out.append({"id": f"T3_v{ver}_{L0}_{L1}_{L2}", "ver": ver, "heavy": "marked", "ops": ops})
+    return out
+
+
+# ---------------------------------------------------------------------------
+# C15 cycle templates
+
+def c15_templates(tier):
+    out = []
+    sizes = [10, 64, 4095, 4096, 10000] + ([70000] if tier == "thorough" else [])
+    for ver in (3, 4):
+        slen = 512 if ver == 3 else 4096
+        per_sector = slen // 64                       # mini sectors per container sector
+        mf_per = slen // 4                            # MiniFAT entries per sector
+        fills = [0, 1, per_sector - 1, per_sector, per_sector + 1]
+        if tier == "thorough" or ver == 3:
+            fills += [mf_per - 1, mf_per, mf_per + 1]
+        for nfill in fills:
+            for s in sizes:
+                cycles = {
+                    "create_remove": [{"op": "create_stream", "p": sp(["zz"])},
+                                      {"op": "write", "p": sp(["zz"]), "off": 0, "runs": [[7, s]]},
+                                      {"op": "remove_stream", "p": sp(["zz"])}],
+                    "grow_shrink": [{"op": "set_len", "p": sp(["a"]), "n": s + 64},
+                                    {"op": "set_len", "p": sp(["a"]), "n": 64}],
+                }
+                if s in (10, 4096, 10000):
+                    cycles["create_setlen_remove"] = [{"op": "create_stream", "p": sp(["zz"])},
+                                                     {"op": "write", "p": sp(["zz"]), "off": 0, "runs": [[7, s]]},
+                                                     {"op": "set_len", "p": sp(["zz"]), "n": 5000 if s < 4096 else 100},
+                                                     {"op": "remove_stream", "p": sp(["zz"])}]
+                    cycles["overwrite"] = [{"op": "create_stream", "p": sp(["a"])},
+                                           {"op": "write", "p": sp(["a"]), "off": 0, "runs": [[9, s]]},
+                                           {"op": "set_len", "p": sp(["a"]), "n": 64},
+                                           {"op": "write", "p": sp(["a"]), "off": 0, "runs": [[5, 64]]}]
+                    cycles["two_streams"] = [{"op": "create_stream", "p": sp(["zz"])},
+                                             {"op": "create_stream", "p": sp(["quux"])},
+                                             {"op": "write", "p": sp(["zz"]), "off": 0, "runs": [[7, s]]},
+                                             {"op": "write", "p": sp(["quux"]), "off": 0, "runs": [[8, 100]]},
+                                             {"op": "remove_stream", "p": sp(["zz"])},
+                                             {"op": "remove_stream", "p": sp(["quux"])}]
+                    cycles["storage"] = [{"op": "create_storage_all", "p": sp(["k1", "k2"])},
+                                         {"op": "create_stream", "p": sp(["k1", "k2", "k3"])},
+                                         {"op": "write", "p": sp(["k1", "k2", "k3"]), "off": 0, "runs": [[7, s]]},
+                                         {"op": "remove_storage_all", "p": sp(["k1"])}]
+                for cname, cyc in cycles.items():
+                    # prefix: a stream 'a' of 64 bytes plus fillers occupying nfill mini sectors
+                    ops = [{"op": "create_stream", "p": sp(["a"])},
+                           {"op": "write", "p": sp(["a"]), "off": 0, "runs": [[5, 64]]}]
+                    left, k = nfill, 0
+                    while left > 0:
+                        take = min(left, 63)            # fillers stay below the 4096 cutoff
+                        nm = C15_FILLERS[k]
+                        ops.append({"op": "create_stream", "p": sp([nm])})
+                        ops.append({"op": "write", "p": sp([nm]), "off": 0, "runs": [[11 + k, take * 64]]})
+                        left -= take
+                        k += 1
+                    ops[-1]["mark"] = "cycle_base"
+                    for rep in range(4):
+                        for o in cyc:
+                            ops.append(dict(o))
+                        ops[-1]["mark"] = "rep_end"
+                    out.append({"id": f"cyc_v{ver}_{cname}_{s}_{nfill}", "ver": ver, "heavy": "last", "ops": ops})
+    return out
+
+
+C15_FILLERS = ["foo", "bar", "baz", "B", "c", "Z", "aa", "AB", "stream1", "n31", "n30", "sp", "dot", "dots", "k4", "k5", "k6"]
+
+
+# ---------------------------------------------------------------------------
+# C17 metadata histories
+
+def c17_histories(tier, seed):
+    rng = random.Random(seed)
+    vals = json.load(open(os.path.join(core.DICTDIR, "values.json")))
+    times = sorted(vals["time"].keys())
+    clsids = sorted(vals["clsid"].keys())
+    bits = sorted(vals["bits"].keys())
+    out = []
+    names = ["k1", "k2", "k3", "k4", "k5", "k6", "foo", "bar", "baz", "a", "B", "c", "Z", "aa", "AB", "zz", "quux",
+             "stream1", "n31", "n30", "sp", "dot", "dots"]
+    for ver in (3, 4):
+        per = 4 if ver == 3 else 32
+        # place targets around the directory-sector boundary (slots per-1, per, per+1)
+        for target_kind in ("storage", "stream", "root"):
+            ops = []
+            # fill slots 1..per-2 with small storages (two levels to get enough names)
+            made = 0
+            for par in ([], ["k1"], ["k2"]):
+                for n in names:
+                    if made >= per - 2:
+                        break
+                    if par == [] or n not in ("k1", "k2"):
+                        ops.append({"op": "create_storage", "p": sp(par + [n])})
+                        made += 1
+            tg = []
+            for j in range(3):       # three targets straddling the boundary
+                p = ["foo", f"k{j + 3}"] if ver == 4 or True else [f"k{j + 3}"]
+                if j == 0 and not any(o["p"]["t"] == ["foo"] for o in ops):
+                    ops.append({"op": "create_storage", "p": sp(["foo"])})
+                if target_kind == "stream":
+                    ops.append({"op": "create_stream", "p": sp(p)})
+                elif target_kind == "storage":
+                    ops.append({"op": "create_storage", "p": sp(p)})
+                tg.append(p if target_kind != "root" else [])
+            for o in ops:
+                o["heavy"] = False
+            vs = times if tier == "thorough" else rng.sample(times, 9)
+            for i, t in enumerate(vs):
+                p = tg[i % 3]
+                ops.append({"op": "set_ctime", "p": sp(p), "v": t, "heavy": True})
+                ops.append({"op": "set_mtime", "p": sp(p), "v": vs[(i + 1) % len(vs)], "heavy": True})
+                ops.append({"op": "entry", "p": sp(p)})
+            for i, c in enumerate(clsids):
+                ops.append({"op": "set_clsid", "p": sp(tg[i % 3]), "v": c, "heavy": True})
+            for i, b in enumerate(bits):
+                ops.append({"op": "set_bits", "p": sp(tg[i % 3]), "v": b, "heavy": True})
+            ops.append({"op": "reopen", "mode": "strict", "heavy": True})
+            # structural churn around the targets must preserve their metadata
+            ops.append({"op": "remove_storage", "p": sp(["k1", "k3"]), "heavy": True})
+            ops.append({"op": "create_stream", "p": sp(["zz"]), "heavy": True})
+            ops.append({"op": "write", "p": sp(["zz"]), "off": 0, "runs": [[3, 5000]], "heavy": True})
+            ops.append({"op": "touch", "p": sp(tg[0]), "heavy": True} if target_kind != "root" else {"op": "flush"})
+            ops.append({"op": "set_clsid", "p": sp(["nope"]), "v": "r1"})
+            ops.append({"op": "set_bits", "p": sp(["nope", "x"]), "v": "r1"})
+            ops.append({"op": "set_mtime", "p": sp([".."]), "v": "epoch"})
+            ops.append({"op": "reopen", "mode": "permissive", "heavy": True})
+            out.append({"id": f"meta_v{ver}_{target_kind}", "ver": ver, "heavy": "marked", "ops": ops})
+    return out
+
+
+# ---------------------------------------------------------------------------
+# C07 handle histories (random): handles stay open across structural ops on
+# other entries; every handle op flushes, so no pending data between events.
+
+def c07_random(rng, d, ver, hid, nops=40):
+    f = Fill()
+    names = [n for n in ["k1", "k2", "k3", "k4", "k5", "k6", "foo", "bar", "a", "zz", "quux", "aa"] if n in d.tlc]
+    rng.shuffle(names)
+    held = {}          # handle -> name
+    live = {}          # name -> kind
+    ops = []
+    for n in names[:5]:
+        ops.append({"op": "create_stream", "p": sp([n])})
+        ops.append({"op": "write", "p": sp([n]), "off": 0, "runs": f.runs(rng, rng.choice([10, 64, 100, 4096, 5000]))})
+        live[n] = "stream"
+    hnames = rng.sample(names[:5], 3)
+    for i, n in enumerate(hnames):
+        ops.append({"op": "open_stream", "p": sp([n]), "h": f"h{i}"})
+        held[f"h{i}"] = n
+    protected = set(held.values())
+    while len(ops) < nops:
+        r = rng.random()
+        if r < 0.3:
+            # remove a non-held entry
+            cands = [n for n in live if n not in protected]
+            if cands:
+                n = rng.choice(cands)
+                ops.append({"op": "remove_stream" if live[n] == "stream" else "remove_storage", "p": sp([n])})
+                del live[n]
+        elif r < 0.55:
+            cands = [n for n in names if n not in live]
+            if cands:
+                n = rng.choice(cands)
+                if rng.random() < 0.7:
+                    ops.append({"op": "create_stream", "p": sp([n])})
+                    ops.append({"op": "write", "p": sp([n]), "off": 0, "runs": f.runs(rng, rng.choice([10, 100, 4096]))})
+                    live[n] = "stream"
+                else:
+                    ops.append({"op": "create_storage", "p": sp([n])})
+                    live[n] = "storage"
+        elif r < 0.7:
+            h = rng.choice(sorted(held))
+            ops.append({"op": "h_write", "h": h, "off": 0, "runs": f.runs(rng, rng.choice([5, 64, 700, 4096, 4200]))})
+        elif r < 0.8:
+            ops.append({"op": "h_read", "h": rng.choice(sorted(held))})
+        elif r < 0.9:
+            ops.append({"op": "h_set_len", "h": rng.choice(sorted(held)), "n": rng.choice([0, 10, 64, 4095, 4096, 6000])})
+        else:
+            cands = [n for n in live if n not in protected and live[n] == "stream"]
+            if cands:
+                ops.append({"op": "set_len", "p": sp([rng.choice(cands)]), "n": rng.choice([0, 100, 5000])})
+    for h in sorted(held):
+        ops.append({"op": "h_read", "h": h})
+        ops.append({"op": "h_len", "h": h})
+    return {"id": hid, "ver": ver, "heavy": "all", "ops": ops}
